@@ -143,13 +143,19 @@ def validateIfs (s : Net) (n : Nat) (c : Netconfig) : List (Nat × Nat) → Exce
         else if !inNet c (s.iface i).ip then .error .testError
         else validateIfs s n c r
 
+/-- `addresses["host"] not in own.network` (the host is only checked when it is defined and non-empty) -/
+def hostOutside (c : Netconfig) : Bool :=
+  match c.host with
+  | some h => !inNet c h
+  | none => false
+
 /-- `VMNetconfig.validate` of netconfig `n` -/
 def validate (s : Net) (n : Nat) : Except Err Unit :=
   let c := s.nc n
   let ipStart := c.netIp + minOff c.range
   let ipEnd := c.netIp + maxOff c.range
   if ipStart ≥ ipSpace ∨ ipEnd ≥ ipSpace then .error .valueError        -- AddressValueError
-  else if (match c.host with | some h => !inNet c h | none => false) then .error .testError
+  else if hostOutside c then .error .testError
   else if !inNet c ipStart then .error .testError
   else if !inNet c ipEnd then .error .testError
   else validateIfs s n c c.ifs
